@@ -74,6 +74,18 @@ func NewRunner(run *hx.Run, model *hx.Model, caseName string, cfg Config, hashIn
 	r := &Runner{Cfg: cfg, Run: run, Model: model, Case: caseName, sizes: map[int]int{}, declared: map[string]bool{},
 		ops: map[int]*opState{}, Acked: map[int]bool{}, Tried: map[int]bool{}, g1pc: "idle"}
 	m := FreshMedia(cfg)
+	// the draws of the hash initialisation for starts without a state file: a function of the case only
+	base, draws := uint64(1469598103934665603), uint64(0)
+	for _, ch := range []byte(cfg.Line()) {
+		base = (base ^ uint64(ch)) * 1099511628211
+	}
+	FreshInit = func() uint64 {
+		draws++
+		z := base + draws*0x9e3779b97f4a7c15
+		z = (z ^ (z >> 30)) * 0xbf58476d1ce4e5b9
+		z = (z ^ (z >> 27)) * 0x94d049bb133111eb
+		return (z ^ (z >> 31)) | 1
+	}
 	if hashInit != 0 {
 		st, _ := proto.Marshal(&pb.PersistentState{OldestEpochId: 1, KeyLocationMapHashInitialization: hashInit})
 		m.Dir.State = st
@@ -285,3 +297,7 @@ func (r *Runner) dataReply(obj int, res opResult) string {
 // GateTimeout bounds the wait for a goroutine of the store to reach its next gate (shrinking
 // lowers it: a shrunk script may ask for steps the store cannot take).
 var GateTimeout = 10 * time.Second
+
+// FreshInit, when set, replaces the hash initialisation a store without a state file draws from the
+// crypto generator (set per case by NewRunner; cases run one at a time).
+var FreshInit func() uint64
